@@ -8,6 +8,8 @@ Author : Shunning Jiang
 Date   : Oct 31, 2017
 """
 
+from operator import index as _index
+
 # lower <= value <= upper
 _upper = [ 0,  1 ]
 _lower = [ 0, -1 ]
@@ -129,11 +131,11 @@ class Bits:
   def __getitem__( self, idx ):
 
     if isinstance( idx, slice ):
-      if idx.step:
+      if idx.step is not None:
         raise IndexError( "Index cannot contain step" )
       try:
-        start = 0 if idx.start is None else int(idx.start)
-        stop  = self._nbits if idx.stop is None else int(idx.stop)
+        start = 0 if idx.start is None else _index(idx.start)
+        stop  = self._nbits if idx.stop is None else _index(idx.stop)
         assert 0 <= start < stop <= self._nbits
       except:
         raise IndexError( f"Invalid access: [{idx.start}:{idx.stop}] in a Bits{self._nbits} instance" )
@@ -142,7 +144,7 @@ class Bits:
       nbits = stop - start
       return _new_valid_bits( stop-start, (self._uint >> start) & _upper[nbits] )
 
-    i = int(idx)
+    i = _index(idx) # an integer or a Bits, not 0.5 or '3'
     if i >= self._nbits or i < 0:
       raise IndexError( f"Invalid access: [{i}] in a Bits{self._nbits} instance" )
 
@@ -153,11 +155,11 @@ class Bits:
     sv = int(self._uint)
 
     if isinstance( idx, slice ):
-      if idx.step:
+      if idx.step is not None:
         raise IndexError( "Index cannot contain step" )
       try:
-        start = 0 if idx.start is None else int(idx.start)
-        stop  = self._nbits if idx.stop is None else int(idx.stop)
+        start = 0 if idx.start is None else _index(idx.start)
+        stop  = self._nbits if idx.stop is None else _index(idx.stop)
         assert 0 <= start < stop <= self._nbits
       except:
         raise IndexError( f"Invalid access: [{idx.start}:{idx.stop}] in a Bits{self._nbits} instance" )
@@ -188,7 +190,7 @@ class Bits:
                      ((v & _upper[slice_nbits]) << start)
       return
 
-    i = int(idx)
+    i = _index(idx) # an integer or a Bits, not 0.5 or '3'
     if i >= self._nbits or i < 0:
       raise IndexError( f"Invalid access: [{i}] in a Bits{self._nbits} instance" )
 
